@@ -89,6 +89,10 @@ class Renderer:
             return r_lit(e)
         if k == "bool":
             return "true" if e["v"] else "false"
+        if k == "alit":
+            return "(asm(r: %s) { r: %s })" % (r_lit(e), e["t"])
+        if k == "abool":
+            return "(asm(r: %du64) { r: bool })" % (1 if e["v"] else 0)
         if k == "unit":
             return "()"
         if k == "var":
@@ -723,6 +727,80 @@ class Gen:
         body += self.stmts(inner, r.randint(1, 3), depth - 1, ret=ret, loop=True)
         return [{"k": "let", "x": i, "mut": True, "ty": T("u64"), "e": lit("u64", 0)},
                 {"k": "while", "c": {"k": "bin", "op": "lt", "l": {"k": "var", "x": i}, "r": lit("u64", n)}, "b": block(body)}]
+
+    # ---- pattern cases: fixed program shapes with random parameters, generated from their own RNG stream
+    # (appending them does not change the programs the other generators produce for a seed)
+    def pattern_cases(self, seed):
+        r = random.Random(seed * 7919 + 13)
+        out = []
+
+        def v(x):
+            return {"k": "var", "x": x}
+
+        def bin_(op, l, rr):
+            return {"k": "bin", "op": op, "l": l, "r": rr}
+
+        # (1) the same two run-time values compared in both operand orders, by every predicate
+        t = r.choice(["u8", "u16", "u32", "u64", "u64", "u256"])
+        m = (1 << (8 * WIDTH[t])) - 1
+        xa = r.choice([0, 1, 5, 7, m, m - 1, r.randint(0, min(m, 1 << 30))])
+        xb = r.choice([xa, xa, 0, 3, 7, m, r.randint(0, min(m, 1 << 30))])
+        a, b = "pa%d" % seed, "pb%d" % seed
+        idf = "id_" + t
+        ss = [{"k": "let", "x": a, "mut": False, "ty": T(t), "e": {"k": "call", "f": idf, "args": [lit(t, xa)]}},
+              {"k": "let", "x": b, "mut": False, "ty": T(t), "e": {"k": "call", "f": idf, "args": [lit(t, xb)]}},
+              {"k": "log", "e": {"k": "if", "c": bin_("lt", v(a), v(b)), "t": block([], lit("u64", 1)),
+                                 "f": block([], {"k": "if", "c": bin_("lt", v(b), v(a)), "t": block([], lit("u64", 2)), "f": block([], lit("u64", 0))})}}]
+        names = []
+        for i, (op, l, rr) in enumerate([("lt", a, b), ("lt", b, a), ("gt", a, b), ("gt", b, a), ("le", a, b), ("le", b, a),
+                                         ("ge", a, b), ("ge", b, a), ("eq", a, b), ("eq", b, a), ("ne", a, b), ("ne", b, a)]):
+            x = "pc%d_%d" % (seed, i)
+            ss.append({"k": "let", "x": x, "mut": False, "ty": T("bool"), "e": bin_(op, v(l), v(rr))})
+            names.append(x)
+        ss.append({"k": "log", "e": {"k": "tuple", "es": [v(x) for x in names[:6]]}})
+        ss.append({"k": "log", "e": {"k": "tuple", "es": [v(x) for x in names[6:]]}})
+        # non-commutative arithmetic in both orders as well (masked so that it cannot trap)
+        if t != "u256":
+            ss.append({"k": "log", "e": {"k": "tuple", "es": [
+                bin_("sub", bin_("or", v(a), lit(t, (m >> 1) + 1)), bin_("and", v(b), lit(t, m >> 1))),
+                bin_("sub", bin_("or", v(b), lit(t, (m >> 1) + 1)), bin_("and", v(a), lit(t, m >> 1))),
+                bin_("div", v(a), bin_("or", v(b), lit(t, 1))), bin_("div", v(b), bin_("or", v(a), lit(t, 1))),
+                bin_("shl", v(a), lit("u64", 1)), bin_("shr", v(b), lit("u64", 1))]}})
+        out.append({"name": "case_cmp", "body": block(ss)})
+
+        # (2) search loop with several exits that carry different values into the loop's exit block; the first
+        # guard is never taken and is a constant only at some level (source literal / IR-opaque asm constant /
+        # run-time value)
+        fname = "search_%d" % seed
+        guard_kind = r.choice(["abool", "alit", "dyn", "lit"])
+        if guard_kind == "abool":
+            guard = {"k": "abool", "v": False}
+        elif guard_kind == "alit":
+            guard = bin_("gt", bin_("mul", {"k": "alit", "t": "u64", "b": be(3, 8)}, {"k": "alit", "t": "u64", "b": be(3, 8)}), lit("u64", 100))
+        elif guard_kind == "dyn":
+            guard = {"k": "call", "f": "id_bool", "args": [boolean(False)]}
+        else:
+            guard = boolean(False)
+        res, i = "sr%d" % seed, "si%d" % seed
+        body = [
+            {"k": "let", "x": res, "mut": True, "ty": {"t": "tuple", "es": [T("bool"), T("u64")]}, "e": {"k": "tuple", "es": [boolean(False), lit("u64", 999)]}},
+            {"k": "let", "x": i, "mut": True, "ty": T("u64"), "e": lit("u64", 0)},
+            {"k": "while", "c": bin_("lt", v(i), v("max")), "b": block([
+                {"k": "expr", "e": {"k": "if", "c": guard, "t": block([{"k": "break"}]), "f": block([])}},
+                {"k": "assign", "x": i, "path": [], "e": bin_("add", v(i), lit("u64", 1))},
+                {"k": "expr", "e": {"k": "if", "c": bin_("eq", bin_("mul", v(i), v(i)), v("n")),
+                                    "t": block([{"k": "assign", "x": res, "path": [{"k": "f", "i": 1}], "e": boolean(True)},
+                                                {"k": "assign", "x": res, "path": [{"k": "f", "i": 2}], "e": v(i)},
+                                                {"k": "break"}]),
+                                    "f": block([])}}])},
+        ]
+        tail = {"k": "if", "c": {"k": "field", "e": v(res), "i": 1}, "t": block([], {"k": "field", "e": v(res), "i": 2}), "f": block([], lit("u64", 999))}
+        self.prog["fns"][fname] = {"params": [{"n": "n", "ty": T("u64")}, {"n": "max", "ty": T("u64")}], "ret": T("u64"),
+                                   "noinline": r.random() < 0.7, "body": block(body, tail)}
+        calls = [(49, 10), (50, 10), (81, 5), (r.randint(0, 40), r.randint(0, 8)), (r.choice([1, 4, 9, 16, 25]), r.randint(3, 7))]
+        ss2 = [{"k": "log", "e": {"k": "call", "f": fname, "args": [lit("u64", n), lit("u64", mx)]}} for (n, mx) in calls]
+        out.append({"name": "case_search", "body": block(ss2)})
+        return out
 
     def main_fn(self):
         """a `main` with a few statements and a tail expression of a random type (script-level return path)"""
